@@ -8,6 +8,7 @@ import HdModel.Model.WireDriver
 import HdModel.Model.StreamsDriver
 import HdModel.Model.PoolDriver
 import HdModel.Model.ServerDriver
+import HdModel.Model.TlsDriver
 /-! Line-protocol driver.  One case per line:
       `<stream> <input tokens…> | <implementation observation tokens…>`
     Output, one line per case:
@@ -30,6 +31,7 @@ def handle (line : String) : String :=
     | "st" :: rest => Streams.driverLine rest obs
     | "pool" :: rest => Pool.driverLine rest obs
     | "srv" :: rest => Server.driverLine rest obs
+    | "tls" :: rest => Tls.driverLine rest obs
     | _ => (false, false, "unknown-stream", "")
   s!"{boolTok r.1} {boolTok r.2.1} {r.2.2.1} | {r.2.2.2}"
 
